@@ -27,7 +27,10 @@ GEN_OPTS = dict(w_call=16, p_blk=0.4, p_forward=0.7, nfuncs=None, p_inline=0.7, 
                 # insn), bodies that begin with a jump-target label (tools/gen_c01_prog.py param_modes/entry_prologue)
                 p_param_write=0.6, p_entry_label=0.35, p_lean=0.5,
                 # round 3 (wave 5): size operand of the entry allocas in every shape (tools/gen_c01_prog.py top_alloca)
-                p_alloca_shapes=0.6)
+                p_alloca_shapes=0.6,
+                # round 3 (wave 7): a callee with a dynamic alloca and code after its ret, inlined in a loop whose
+                # iterations x block size exceed the stack several times (tools/gen_c01_prog.py dyn_alloca_family)
+                p_dyn_alloca_loop=0.12)
 
 
 def regen():
